@@ -405,6 +405,8 @@ func init() {
 		// a fetch that takes very long: the clock jumps by a minute or an hour while it is in flight
 		c.RunSched(c02Scenario(c, c02Params{Name: "slow-fetch3", Threads: 3, Reqs: 1, Ticks: []int64{61, 3600}, Bounds: vsched.Bounds{Preempt: 2, Tick: 1, Data: 1, Total: 3}}))
 		c.RunSched(c02Scenario(c, c02Params{Name: "hung-origin3", Hang: true, Threads: 3, Reqs: 1, Bounds: b}))
+		// the same obligation with a store in the picture: three requests finding an expired record in a lazy store
+		c.RunSched(c01Scenario(c, c01Params{Name: "burst3-expired-record-in-lazy-store", Threads: 3, Reqs: 1, T: 1, Prologue: "store-lazy-expired-record", Bounds: vsched.Bounds{Preempt: 2, Tick: 0, Data: -1, Total: 2}}))
 		c.RunSched(c02Core(c, "core-next-outcomes3", 3, b))
 		c.RunSched(c02Scenario(c, c02Params{Name: "cacheable3-purge", Threads: 3, Reqs: 1, Purge: true, Bounds: vsched.Bounds{Preempt: 2, Tick: 1, Data: 0, Total: 2}}))
 		if c.Thorough() {
